@@ -611,14 +611,16 @@ class C08Check(PCheck):
 
     def generate(self, rng, run_index, tier):
         sc = super().generate(rng, run_index, tier)
-        sc['counter'] = {'seed': rng.randrange(1 << 30), 'n': 400 if tier == 'thorough' else 150}
+        sc['task']['counter'] = {'seed': rng.randrange(1 << 30), 'n': 400 if tier == 'thorough' else 150}
         return sc
 
     def execute(self, scenario):
-        res = super().execute(scenario)
-        if res['verdict'] != PASS or not scenario.get('counter'):
+        fut = FLEET.submit(scenario['env'], scenario['task'], timeout=self.run_timeout)
+        raw = fut.result()
+        res = self.verdict(scenario, raw)
+        if res['verdict'] != PASS or not raw.get('counter_only'):
             return res
-        bad, n, nrec = counter_only(scenario['counter']['seed'], scenario['counter']['n'])
+        bad, n, nrec = raw['counter_only']
         res['stats']['probes']['counter_only_histories'] = res['stats']['probes'].get('counter_only_histories', 0) + n
         res['stats']['counters']['counter_only_records'] = res['stats']['counters'].get('counter_only_records', 0) + nrec
         if bad is not None:
@@ -626,80 +628,6 @@ class C08Check(PCheck):
                           expected=bad['expected'], actual=bad['actual'], detail=bad, stats=res['stats'],
                           run_digest=res['digest'])
         return res
-
-
-_M2 = {}
-
-
-def load_m2_light():
-    """bin/martinize2 as a module in the driver (argument parsing helpers only; no library is loaded)."""
-    if 'm2' not in _M2:
-        import importlib.machinery
-        import importlib.util
-        loader = importlib.machinery.SourceFileLoader('m2light', os.path.join(core.REPO, 'bin', 'martinize2'))
-        spec = importlib.util.spec_from_loader('m2light', loader)
-        mod = importlib.util.module_from_spec(spec)
-        loader.exec_module(mod)
-        import logging
-        logging.getLogger('vermouth').removeHandler(mod.CONSOLE_HANDLER)
-        _M2['m2'] = mod
-    return _M2['m2']
-
-
-def counter_only(seed, n):
-    """Replay generated record histories straight into the real CountingHandler through the real adapters
-    and compare the real accounting with the reference formula.  -> (mismatch | None, histories, records)"""
-    import logging
-    from vermouth.log_helpers import CountingHandler, StyleAdapter, TypeAdapter, ignore_warnings_and_count
-    from . import peval
-    m2 = load_m2_light()
-    types = ['general', 'pdb-alternate', 'unknown-residue', 'model', 'x-y', 'inconsistent-data']
-    total_records = 0
-    for i in range(n):
-        rng = core.sub_rng(seed, 'counter', i)
-        logger = logging.Logger('vsim.c08')
-        logger.setLevel(1)
-        handler = CountingHandler()
-        handler.setLevel(logging.WARNING)
-        logger.addHandler(handler)
-        adapter = StyleAdapter(TypeAdapter(logger))
-        used = rng.sample(types, rng.randint(0, 6))
-        records = []
-        for t in used:
-            for level in rng.sample([30, 30, 40, 50, 35, 20, 25], rng.randint(1, 3)):
-                count = rng.choice([0, 1, 1, 2, 3, 5, 10, 50])
-                for _ in range(count):
-                    if t == 'general' and rng.random() < 0.5:
-                        adapter.log(level, 'record {}', count)          # default type
-                    else:
-                        adapter.log(level, 'record {}', count, type=t)
-                    records.append((level, t))
-        total_records += len(records)
-        spec_strings = []
-        groups = []
-        for _ in range(rng.randint(0, 3)):
-            grp = []
-            for _ in range(rng.randint(1, 3)):
-                r = rng.random()
-                if r < 0.35:
-                    sp = str(rng.choice([0, 1, 2, 3, 5, 10, 49, 50, 51, 1000, -1, -7]))
-                elif r < 0.6:
-                    sp = rng.choice(types + ['never-occurs'])
-                else:
-                    sp = '%s:%d' % (rng.choice(types + ['never-occurs']), rng.choice([0, 1, 2, 9, 10, 11, 50, 60, -3]))
-                grp.append(sp)
-            groups.append(grp)
-            spec_strings += grp
-        specs = [[m2.maxwarn(sp) for sp in grp] for grp in groups]
-        got = ignore_warnings_and_count(handler, specs)
-        want, comparable = peval.reference_R([r for r in records if r[0] >= logging.WARNING], spec_strings)
-        if comparable and got != want:
-            return ({'history': i, 'records': sorted(collections.Counter(records).items()), 'maxwarn': groups,
-                     'expected': want, 'actual': got}, i + 1, total_records)
-        if got < 0:
-            return ({'history': i, 'records': sorted(collections.Counter(records).items()), 'maxwarn': groups,
-                     'expected': '>= 0', 'actual': got}, i + 1, total_records)
-    return None, n, total_records
 
 
 class C03Check(PCheck):
@@ -1142,124 +1070,20 @@ class C17Check(PCheck):
 CHECK_C17 = core.register(C17Check())
 
 
-# ---------------------------------------------------------------------------
-# C17 library-level variant: the real processors on generated systems (reported separately)
-
-class _MiniChild:
-    def __init__(self):
-        self.failed = []
-        self.stats = core.Stats()
-        self.peer = None
-
-    def fail(self, prop, invariant, expected=None, actual=None, signature=None, detail=None):
-        self.failed.append({'property': prop, 'invariant': invariant, 'expected': expected, 'actual': actual,
-                            'signature': signature or invariant, 'detail': detail})
-
-
-def c17_library(seed, n):
-    """-> (failure | None, systems run, stats)"""
-    from vermouth.molecule import Molecule
-    from vermouth.system import System
-    from vermouth import selectors
-    from vermouth.dssp.dssp import AnnotateResidues, AnnotateMartiniSecondaryStructures
-    from . import ssoracle
-    mini = _MiniChild()
-    oracle = ssoracle.Oracle(mini)
-    prot = ['ALA', 'GLY', 'LYS', 'TRP', 'SER', 'GLU']
-    reuse, reuse_seq = None, None
-    for i in range(n):
-        rng = core.sub_rng(seed, 'c17lib', i)
-        system = System()
-        nmol = rng.randint(1, 5)
-        lengths = []
-        equal_len = rng.random() < 0.35
-        base_len = rng.choice([1, 2, 3, 5, 8, 9, 13, 20])
-        desc = []
-        for m in range(nmol):
-            is_prot = rng.random() < 0.7
-            nres = base_len if (equal_len and is_prot) else rng.choice([1, 2, 3, 5, 8, 9, 13, 20])
-            mol = Molecule()
-            key = rng.choice([0, 1, 10])
-            keys = []
-            for r in range(nres):
-                resname = rng.choice(prot) if is_prot else rng.choice(['POPC', 'W', 'LIG'])
-                for a in range(rng.randint(1, 3)):
-                    keys.append((key, {'chain': 'ABCDE'[m], 'resid': r + 1 + 10 * (m % 2), 'resname': resname,
-                                       'atomname': ['N', 'CA', 'C'][a], 'insertion_code': ''}))
-                    key += rng.choice([1, 1, 2])
-            if rng.random() < 0.3 and len(keys) > 2:
-                # node order differs from key order (as after repair and sorting)
-                tail = keys[-1]
-                keys = [tail] + keys[:-1]
-            for k, attrs in keys:
-                mol.add_node(k, **attrs)
-            system.molecules.append(mol)
-            desc.append([is_prot, nres])
-            if is_prot:
-                lengths.append(nres)
-        total = sum(lengths)
-        k = rng.random()
-        if k < 0.4:
-            nseq = total
-        elif k < 0.6 and lengths:
-            nseq = lengths[0]
-        elif k < 0.75:
-            nseq = 1
-        else:
-            nseq = max(0, total + rng.choice([-3, -1, 1, 2]))
-        if rng.random() < 0.6:
-            seq = ''
-            while len(seq) < nseq:
-                seq += 'H' * rng.choice([1, 2, 3, 4, 5, 6, 7, 8, 9, 10, 15]) + rng.choice('CETSBGI') * rng.choice([1, 1, 2, 3])
-            seq = seq[:nseq]
-        else:
-            seq = ''.join(rng.choice('HHHGIEBTSC') for _ in range(nseq))
-        if reuse is not None and rng.random() < 0.5:
-            proc = reuse                      # the same processor object applied to another system (state between calls)
-            seq = reuse_seq
-            mini.stats.probes['ss_processor_reused'] += 1
-        else:
-            proc = AnnotateResidues(attribute='aasecstruct', sequence=seq, molecule_selector=selectors.is_protein)
-        reuse, reuse_seq = proc, seq
-        oracle.begin_annotate_residues(proc, system, sequence=seq)
-        raised = None
-        try:
-            proc.run_system(system)
-        except Exception as err:
-            raised = err
-        if not seq and not lengths:
-            oracle.before.pop('AnnotateResidues', None)
-        else:
-            oracle.end_annotate_residues(proc, system, raised)
-        if mini.failed:
-            return dict(mini.failed[0], detail={'system': desc, 'sequence': seq, 'history': i}), i + 1, mini.stats
-        if raised is None:
-            proc2 = AnnotateMartiniSecondaryStructures()
-            oracle.begin_martini(proc2, system)
-            raised2 = None
-            try:
-                proc2.run_system(system)
-            except Exception as err:
-                raised2 = err
-            oracle.end_martini(proc2, system, raised2)
-            if mini.failed:
-                return dict(mini.failed[0], detail={'system': desc, 'sequence': seq, 'history': i}), i + 1, mini.stats
-    return None, n, mini.stats
-
-
 def _c17_generate(self, rng, run_index, tier):
     sc = PCheck.generate(self, rng, run_index, tier)
-    sc['library'] = {'seed': rng.randrange(1 << 30), 'n': 150 if tier == 'thorough' else 40}
+    sc['task']['library'] = {'seed': rng.randrange(1 << 30), 'n': 300 if tier == 'thorough' else 100}
     return sc
 
 
 def _c17_execute(self, scenario):
-    res = PCheck.execute(self, scenario)
-    if res['verdict'] != PASS or not scenario.get('library'):
+    raw = FLEET.submit(scenario['env'], scenario['task'], timeout=self.run_timeout).result()
+    res = self.verdict(scenario, raw)
+    if res['verdict'] != PASS or not raw.get('c17_library'):
         return res
-    bad, n, st = c17_library(scenario['library']['seed'], scenario['library']['n'])
+    bad, n, st_probes = raw['c17_library']
     probes = res['stats']['probes']
-    for k, v in st.probes.items():
+    for k, v in st_probes.items():
         probes['lib:' + k] = probes.get('lib:' + k, 0) + v
         if k in ('ss_long_helix', 'ss_medium_helix', 'ss_short_helix', 'ss_unselected_before_selected', 'ss_rule_mismatch'):
             probes[k] = probes.get(k, 0) + v
